@@ -274,8 +274,14 @@ def end_with_tail(rng, clean_tail=""):
         lines = [r.choice(GARBAGE) for _ in range(r.choice([1, 1, 2, 3]))]
         # statements are not line-terminated in this grammar: a ':' or '=' that opens the next line turns the
         # directive into the label '.end:' / the definition 'end = ...' (reported candidate, see probe_end_colon)
-        while lines[0].lstrip()[:1] in tuple(":=^+-*/%&|!_,"):     # also a leading infix operator continues 'end' as an expression
-            lines[0] = r.choice(GARBAGE)
+        def continues(ls):
+            for l in "\n".join(ls).split("\n"):             # blank and comment-only lines do not separate statements either
+                t = l.strip()
+                if t and not t.startswith(";"):
+                    return t[:1] in tuple(":=^+-*/%&|!_,")   # also a leading infix operator continues 'end' as an expression
+            return False
+        while continues(lines):
+            lines = [r.choice(GARBAGE) for _ in range(len(lines))]
         tail = "\n".join(lines) + ("\n" if r.random() < 0.7 else "")
         if r.random() < 0.3:
             tail += clean_tail
